@@ -105,6 +105,8 @@ def check_aba(spec):
             return "raised %r" % (e,)
     if len(left) != 0:
         return "after replacing every occurrence a second search still finds %d" % len(left)
+    if spec.get('pair') == 'shrink-shared':
+        return None      # B (two atoms) does not determine the frame A is put back into: only the second-search clause applies
     if sorted(s2.elements) != sorted(S.elements):
         return "A->B->A changed the elements: %r vs %r" % (sorted(s2.elements), sorted(S.elements))
     for e, p in zip(S.elements, S.positions):
@@ -158,7 +160,7 @@ def run(rec, tier, seed):
             rec.case(repr(sorted(spec.items())), group='self-shared-atoms')
             if msg:
                 rec.fail('selfrepl', 'self-replacement', "%s on %r" % (msg, spec), spec, 'C08/self-replacement')
-    for pi, pair in enumerate(['single-swap', 'swap-element', 'collinear-swap', 'nudge-swap']):
+    for pi, pair in enumerate(['single-swap', 'swap-element', 'collinear-swap', 'nudge-swap', 'shrink-shared']):      # the last: B is a strict subset of A
         for ci, cell in enumerate(geo.CELLS):
             spec = dict(cell=cell, pair=pair, copies=3, seed=seed * 10 + 50 + pi + ci, aba=True)
             msg = check_aba(spec)
